@@ -156,6 +156,11 @@ def gen_plan(seed, tier):
                          and Rng(mix(seed, "rst")).chance(0.25))}
   if max(len(m) for m in msgs) > 20000 and cfg["recv_mode"] == "dribble":
     cfg["recv_mode"] = "choose"
+  rb = Rng(mix(seed, "burst"))
+  if side == "sw" and kind != "trunc" and rb.chance(0.015):
+    cfg.update(burst=rb.pick([4500, 5000]), recv_mode="all", segment=False,
+               slow_reader=None, late_sentinels=False, before_hello=False,
+               second_controller=False)
   return {"prop": PROP, "seed": seed, "cfg": cfg,
           "steps": [{"m": m.hex()} for m in msgs], "fault": fault}
 
@@ -206,6 +211,12 @@ def damaged_stream(plan):
   elif kind == "random":
     msgs[k] = bytearray(bytes.fromhex(f["data"]))
   stream = b"".join(bytes(m) for m in msgs)
+  nb = plan["cfg"].get("burst")
+  if nb:
+    # thousands of minimal messages of a type nobody has, in one go: each
+    # is answered with an error (and each answer wakes the IO loop)
+    stream = b"".join(W.msg(0x63, 0x100000 + i, b"") for i in range(nb)) \
+        + stream
   if kind == "trunc":
     stream = stream[:f["at"]]
     eof = True
@@ -222,7 +233,11 @@ class Violation(Exception):
 def run_plan(plan):
   cfg = plan["cfg"]
   sim = S.Sim(mix(plan["seed"], "run"), calm=plan.get("calm", False))
-  S.install(sim)
+  S.install(sim, real_pinger=bool(cfg.get("burst")))
+  if cfg.get("burst"):
+    # the real pipe pinger, on a pipe of one page (what Linux hands out once
+    # a user's pipe pages are past the soft limit)
+    sim.pipe_capacity = 4096
   sim.budget = LineBudget()
   sim.budget.install()
   nbytes = sum(len(s["m"]) // 2 for s in plan["steps"]) + 200
